@@ -10,7 +10,7 @@
   piece it promotes to) on the target square, the rook hopped on castling.
 -/
 import Jence.Model.Types
-import Jence.Lemmas.History
+import Jence.Lemmas.NoKing
 namespace Jence.Props.C02
 open Jence
 
@@ -142,12 +142,22 @@ theorem wf_kings (g : Game) (b : Board) (wf : Wf g b) :
   · rw [bitOf WK t (by decide) ht]; exact ⟨hu t ht, fun h => by rw [h]; exact hbk⟩
   · rw [bitOf BK t (by decide) ht]; exact ⟨hu' t ht, fun h => by rw [h]; exact hbk'⟩
 
-/-- **T2.3** Histories: from a consistent position, any sequence of generated moves that can be made (no position on
-    the way offering a king capture) ends in a consistent position whose board is the rules' board after the moves -
-    a stale occupancy bit or castling right cannot surface any number of plies later. -/
-theorem history_consistent (g0 g : Game) (b0 : Board) (ms : List Move) (wf : Wf g0 b0) (hp : GoodPath g0 ms)
-    (hplay : playAll g0 ms = some g) : Wf g (boardAfter b0 g0.white ms) :=
-  (history_wf ms g0 g b0 wf hp hplay).1
+/-- **T2.3** Histories: from a consistent position in which the side not to move is not in check (both decidable and
+    evaluated on every root), any sequence of generated moves that `make_search_move` accepts ends in a consistent
+    position whose board is the rules' board after the moves - a stale occupancy bit or castling right cannot surface
+    any number of plies later. The "no capture aims at a king" condition is an invariant, not a hypothesis per step:
+    `make_search_move` refuses a move that leaves the mover's king attacked, and the reverse lookup of
+    `is_square_attacked` finds every attacker the generator would (attack symmetry, `Lemmas/AttackSym`). -/
+theorem history_consistent (g0 g : Game) (b0 : Board) (ms : List Move) (wf : Wf g0 b0) (nk : NoKingCapture g0)
+    (hp : GenPath g0 ms) (hplay : playAll g0 ms = some g) :
+    Wf g (boardAfter b0 g0.white ms) ∧ NoKingCapture g :=
+  let h := history_wf_root ms g0 g b0 wf nk hp hplay
+  ⟨h.1, h.2.1⟩
+
+/-- one step of that invariant: after an accepted move no generated capture aims at the mover's king -/
+theorem accepted_move_king_safe (g g' : Game) (b : Board) (m : Move) (all : Bool) (wf : Wf g b) (nk : NoKingCapture g)
+    (hm : m ∈ generateMoves g all) (hmk : makeCore g m = some g') : NoKingCapture g' :=
+  makeCore_nk g g' m b wf (gen_fits wf nk all m hm) hmk
 
 /-- consistency is decidable (`WfD`), and the decision implies `Wf` for the board read off the piece sets: the roots
     the histories start from are checked by evaluation -/
